@@ -92,6 +92,8 @@ class _AddrBase (object):
 
 
 
+_eth_hex_digits = b'0123456789abcdefABCDEF'
+
 class EthAddr (_AddrBase):
   """
   An Ethernet (MAC) address type.
@@ -119,13 +121,20 @@ class EthAddr (_AddrBase):
           # Address of form xx:xx:xx:xx:xx:xx
           # Pick out the hex digits only
           addr = b''.join((addr[x*3:x*3+2] for x in range(0,6)))
-        elif len(addr) == 12:
+        elif len(addr) == 12 and b':' not in addr:
           pass
         else:
           # Assume it's hex digits but they may not all be in two-digit
           # groupings (e.g., xx:x:x:xx:x:x). This actually comes up.
-          addr = b''.join([b"%02x" % (int(x,16),) for x in addr.split(b":")])
+          groups = addr.split(b":")
+          if len(groups) != 6 or not all(
+              0 < len(x) <= 2 and all(c in _eth_hex_digits for c in x)
+              for x in groups):
+            raise RuntimeError("Bad format for ethernet address")
+          addr = b''.join([b"%02x" % (int(x,16),) for x in groups])
         # We should now have 12 hex digits (xxxxxxxxxxxx).
+        if not all(c in _eth_hex_digits for c in addr):
+          raise RuntimeError("Bad format for ethernet address")
         # Convert to 6 raw bytes.
         addr = bytes(int(addr[x*2:x*2+2], 16) for x in range(0,6))
       else:
